@@ -376,6 +376,32 @@ def extract(repo):
     data["slice_field_ty"] = ws(fm.group(2))
     data["slice_struct_lifetime"] = slifetimes[0]
     data["slice_struct_elem"] = sparams[0]
+    # 9. the wrapped iterator behind `UnsafeCell<Iter>` (src/iter/implementors/iter.rs): every function that touches the field,
+    #    and every function (in the two files that can see it: `mut_iter` is pub(crate)) that calls `mut_iter()`
+    cell, callers = [], []
+    for rel in rust_files(repo):
+        src = read(repo, rel)
+        if "/tests/" in rel or rel.endswith("verif_shim.rs"):
+            continue
+        for fm in re.finditer(r"\bfn\s+(\w+)\s*(?:<[^>]*>)?\s*\(", src):
+            p1 = balanced(src, fm.end() - 1, "(", ")")
+            rest = src[p1:]
+            bm = re.match(r"[^;{]*\{", rest)
+            if not bm:
+                continue
+            b0 = p1 + bm.end() - 1
+            b1 = balanced(src, b0, "{", "}")
+            body = src[b0:b1]
+            name = fm.group(1)
+            if rel == "src/iter/implementors/iter.rs":
+                for am in re.finditer(r"\bself\s*\.\s*iter\s*\.\s*(\w+)\s*\(", body):
+                    cell.append((name, am.group(1)))
+            if re.search(r"\bmut_iter\s*\(\s*\)", body) and name != "mut_iter":
+                callers.append((rel, name))
+            if re.search(r"\bsize_hint\s*\(", body) and rel in ("src/iter/implementors/iter.rs", "src/iter/buffered/iter.rs") and name != "size_hint":
+                callers.append((rel, name + ":size_hint"))
+    data["cell_accesses"] = sorted(set(cell))
+    data["mut_iter_callers"] = sorted(set(callers))
     return data
 
 
@@ -482,6 +508,11 @@ def render(d):
     o.append("def sliceImplSelfLifetime : String := %s" % lstr(d["slice_self_lifetime"]))
     o.append("def sliceImplSelfElem : String := %s" % lstr(d["slice_self_elem"]))
     o.append("def sliceItemType : String := %s" % lstr(d["slice_item"]))
+    o.append("")
+    o.append("/-- the methods called on the `UnsafeCell<Iter>` field of `ConIterOfIter`, by function of implementors/iter.rs -/")
+    o.append("def wrappedCellAccesses : List (String × String) := [%s]" % ", ".join("(%s, %s)" % (lstr(a), lstr(b)) for (a, b) in d["cell_accesses"]))
+    o.append("/-- the functions of the crate that call `mut_iter()` (or `size_hint` in the two files that can reach the wrapped iterator) -/")
+    o.append("def mutIterCallers : List (String × String) := [%s]" % ", ".join("(%s, %s)" % (lstr(a), lstr(b)) for (a, b) in d["mut_iter_callers"]))
     o.append("")
     o.append("end Orx.Generated")
     return "\n".join(o) + "\n"
